@@ -38,7 +38,7 @@ Definition lifecycle (l : clabel) : bool :=
   match l with
   | CSLock k | CSTest k | CSNbInc k | CSTStart k _ | CSAppend k _ | CSUnlock k => lifecycle_k k
   | CSTTest | CSTClear | CSTQsize | CSTLoopA _ _ | CSTLoopB _
-  | CSPTest | CSPSet | CSPLock | CSPPut _ | CSPCopy | CSPUnlock _ | CSPJoin _ | CSPDel
+  | CSPTest | CSPSet | CSPLock | CSPPut _ | CSPCopy | CSPUnlock _ | CSPAlive _ | CSPJoin _ | CSPAlive2 _ | CSPDel
   | CCLLock | CCLGet | CCLDone | CCLUnlock => true
   | CJTest _ JClear | CJQJoin JClear => true
   | _ => false
